@@ -23,8 +23,6 @@ import (
 // Q and on P (without P, levelP = −1: factor 1 and one prime per row). As an integer mod QP that is
 // T_ij = CRT(those residues) — recomputed here coefficient by coefficient with math/big.
 
-const sigTernaryXeKey = "C03/KeyGenerator.Gen*Key/Xe=Ternary,LevelQ<max/panic(TernarySampler.AtLevel)"
-
 const keyPoolMin = 256
 
 var base2Alphabet = []int{0, 1, 2, 7, 13, 16, 30}
@@ -193,16 +191,6 @@ func keyScenario(rt ring.Type, logN int, ch rk.Chain, np int, kind string, bound
 			c.Cover("keys-tail", "#P-does-not-divide-#Q")
 		}
 		kj := &keyJudge{c: c, p: p, cfg: cfg, gen: "C03/keys/" + kind + "/", c1s: map[string]bool{}}
-		if isTernary(p.Xe()) && levelQ < L {
-			// known defect (FINDINGS.md): judged once per key kind, on the leaf with every other axis
-			// at its default, so that the finding cannot crowd out other violations
-			if base2 != 0 || compressed || xsI != 0 || levelP != p.MaxLevelP() || levelQ != L-1 || (kind == "gk" && galEl != p.GaloisElement(1)) {
-				c.Skip("input class with a known defect, judged on its representative leaf")
-				return
-			}
-			kj.known = sigTernaryXeKey
-			c.Cover("known-class", sigTernaryXeKey)
-		}
 		evkp := rlwe.EvaluationKeyParameters{LevelQ: &levelQ, LevelP: &levelP, BaseTwoDecomposition: &base2, Compressed: compressed}
 		// Several keys (at least two) until the pool is large enough for the lower-bound clauses. The
 		// first comes from the Gen*KeyNew constructor; the following ones are generated IN PLACE into one
